@@ -12,7 +12,9 @@
 #include <cstring>
 #include <sys/mman.h>
 #include "../engine/verif_atomic.hpp"
+#include "../engine/verif_atomic_begin.hpp"
 #include <frg/slab.hpp>
+#include "../engine/verif_atomic_end.hpp"
 #include "../engine/verif.hpp"
 
 const char *verif_harness = "slab_conc";
